@@ -39,7 +39,8 @@ Record fan_case := { fc_clients : list fan_client; fc_pubs : list fan_pub; fc_ba
 (** live subscriptions of one client at publish time (spec-level replay of its history) *)
 Definition live_subs (cl : fan_client) : list (string * Z) :=
   if fcl_left cl then []
-  else filter (fun '(f, _) => negb (smem f (fcl_unsubs cl))) (fcl_subs cl).
+  else filter (fun '(f, _) => negb (smem f (fcl_unsubs cl)))
+              (aset_all String.eqb (fcl_subs cl) []).       (* a later SUBSCRIBE of the same filter replaces its QoS *)
 
 Definition fan_subs (c : fan_case) : list sub :=
   flat_map (fun cl => map (fun '(f, q) => (fcl_cid cl, f, q)) (live_subs cl)) (fc_clients c).
@@ -347,7 +348,9 @@ Inductive life_op :=
 | LExtPut (cid : string) (tp : topics)          (* a persistent session written straight into the store (another broker instance) *)
 | LPub (topic : string) (row : list (string * bool)) (recv : list Z).
 
-Record life_case := { lc_steps : list (life_op * snap); lc_bad : bool }.
+(** a step without snapshot: the harness could not observe a quiescent state there (it forced the next steps into
+    the middle of this one); the next snapshot covers it *)
+Record life_case := { lc_steps : list (life_op * option snap); lc_bad : bool }.
 
 Definition life_events (o : life_op) : list ev :=
   match o with
@@ -405,12 +408,12 @@ Definition op_agrees (st_before st_after : state) (o : life_op) : bool :=
   | _ => true
   end.
 
-Fixpoint life_corr (q : quirks) (st : state) (steps : list (life_op * snap)) : bool :=
+Fixpoint life_corr (q : quirks) (st : state) (steps : list (life_op * option snap)) : bool :=
   match steps with
   | [] => true
   | (o, sn) :: t =>
       let st' := run q st (life_events o) in
-      snap_agrees st' sn && op_agrees st st' o && life_corr q st' t
+      match sn with Some x => snap_agrees st' x | None => true end && op_agrees st st' o && life_corr q st' t
   end.
 
 (** ** the property, replayed on the implementation's own snapshots (no model involved) *)
@@ -547,12 +550,12 @@ Definition spec_op_holds (sp_before sp_after : list (string * spec_cid)) (sn : s
   | _ => true
   end.
 
-Fixpoint life_prop (sp : list (string * spec_cid)) (steps : list (life_op * snap)) : bool :=
+Fixpoint life_prop (sp : list (string * spec_cid)) (steps : list (life_op * option snap)) : bool :=
   match steps with
   | [] => true
   | (o, sn) :: t =>
       let sp' := spec_step sp o in
-      spec_holds sn sp' && spec_op_holds sp sp' sn o && life_prop sp' t
+      match sn with Some x => spec_holds x sp' && spec_op_holds sp sp' x o | None => true end && life_prop sp' t
   end.
 
 Definition poke_of_live (st : state) (o : life_op) : bool :=
@@ -563,7 +566,7 @@ Definition poke_of_live (st : state) (o : life_op) : bool :=
 
 (** a history recorded against the pinned code may poke a connection that the model under other flags
     still has alive: there the PINGREQ is an ordinary ping and the step is void *)
-Fixpoint model_steps (q : quirks) (st : state) (steps : list (life_op * snap)) : list (life_op * snap) :=
+Fixpoint model_steps (q : quirks) (st : state) (steps : list (life_op * option snap)) : list (life_op * option snap) :=
   match steps with
   | [] => []
   | (o, _) :: t =>
@@ -574,7 +577,7 @@ Fixpoint model_steps (q : quirks) (st : state) (steps : list (life_op * snap)) :
                 | LDrop k poke _ => LDrop k poke poke
                 | _ => o
                 end in
-      (o', model_snap st') :: model_steps q st' t
+      (o', Some (model_snap st')) :: model_steps q st' t
   end.
 
 Definition life_class (c : life_case) : N :=
